@@ -61,8 +61,21 @@ def _handler_matches(h: ast.ExceptHandler, ex: "_Raised") -> bool:
     return False
 
 
+_OWN_YIELD: dict[int, tuple[ast.AST, bool]] = {}
+_CODE: dict[int, tuple[ast.AST, Any]] = {}
+
+
 def _own_yield(fd: ast.AST) -> bool:
     """fd's own body yields (yields of functions nested in it make those generators, not fd)."""
+    hit = _OWN_YIELD.get(id(fd))
+    if hit is not None and hit[0] is fd:
+        return hit[1]
+    res = _own_yield_uncached(fd)
+    _OWN_YIELD[id(fd)] = (fd, res)
+    return res
+
+
+def _own_yield_uncached(fd: ast.AST) -> bool:
     stack = list(getattr(fd, "body", []))
     while stack:
         n = stack.pop()
@@ -86,7 +99,11 @@ class Interp:
 
     def ev(self, e: ast.AST) -> Any:
         try:
-            return eval(compile(ast.Expression(body=e), "<extracted>", "eval"), self.env)  # noqa: S307
+            hit = _CODE.get(id(e))
+            if hit is None or hit[0] is not e:
+                hit = (e, compile(ast.Expression(body=e), "<extracted>", "eval"))
+                _CODE[id(e)] = hit
+            return eval(hit[1], self.env)  # noqa: S307
         except (_Continue, _Break, _Raised, _Return, AnalysisError):
             raise
         except self.behaviours as ex:  # a behaviour of the extracted code, not of the stubs
